@@ -77,8 +77,9 @@ def arm_paths(fn, entry, stop_blocks, limit=4000):
         if k == "switch":
             c = fn.expr(t["a"], 8, stop={"named"})
             for v, tb in t["targets"]:
-                nxt(tb, conds + [(c, v)], effs, ret, onpath)
-            nxt(t["otherwise"], conds + [(c, ("else", tuple(v for v, tb in t["targets"])))], effs, ret, onpath)
+                nxt(tb, conds + [(c, v)], effs + [("cond", c, v)], ret, onpath)
+            ov = ("else", tuple(v for v, tb in t["targets"]))
+            nxt(t["otherwise"], conds + [(c, ov)], effs + [("cond", c, ov)], ret, onpath)
             return
         if k == "call":
             if t["dest"]["l"] == 0 and place_is_local(t["dest"]):
@@ -170,20 +171,22 @@ def run(ctx):
     ctx.need(found == 1, "Status::StepOver construction in the StepOver arm")
     ctx.finish_rule()
 
-    ctx.rule("C10.R3", "step into N: N is at least 1 everywhere it is built, and the stepper starts at N - 1", floor=2)
+    ctx.rule("C10.R3", "step into N: N is at least 1 everywhere it is built, and the stepper's initial counter is a function of N", floor=2)
     reg = dbg.arm_region(disp, arms["StepInto"])
     found = 0
+    init_exprs = []
     for b in sorted(reg):
         for s in disp.stmts(b):
             if s["k"] == "assign" and s["r"]["k"] == "agg" and s["r"].get("adt") == STATUS and s["r"].get("variant") == "StepInto":
                 found += 1
                 e = disp.expr(s["r"]["ops"][0], 10, stop={"named"})
-                l = lin(e)
-                ok = same(l, -1, [("count", 1)])
+                init_exprs.append((e, s.get("sp")))
+                leaves = {x[2] for x in expr_walk(e) if x[0] in ("local", "arg")}
                 ctx.instance(1)
-                ctx.oblig(ok, {"initial counter": show(l)}, "count - 1")
+                ok = len(leaves) == 1
+                ctx.oblig(ok, {"initial counter": expr_str(e, 60)}, "a function of the command's count only (its value is decided together with the stepper, R4)")
                 if not ok:
-                    ctx.violation("initial-counter", sp_file_line(s.get("sp")), "`step into N` starts its counter at `%s` (expected N - 1): it would execute the wrong number of instructions" % show(l))
+                    ctx.violation("initial-counter", sp_file_line(s.get("sp")), "`step into N` starts its counter at `%s`, which is not a function of N alone" % expr_str(e, 60))
     ctx.need(found == 1, "Status::StepInto construction in the StepInto arm")
     # every construction of Command::StepInto takes its count from the clamping reader
     n_cons = 0
@@ -250,63 +253,74 @@ def run(ctx):
               "ret": ("variant", "Some", "core::option::Option", (("variant", "Return", "lace::debugger::SignificantInstr", ()),)),
               "halt": ("variant", "Some", "core::option::Option", (("variant", "Halt", "lace::debugger::SignificantInstr", ()),))}
 
-    def run_arm(paths, env):
-        """outcomes of the arm under a concrete (count, at_ret, instr): every path whose evaluable conditions hold"""
-        def sub(e):
-            if (e[0] in ("local", "arg") and e[2] == "count") or (e[0] == "field" and e[2] == "count" and e[1][0] == "downcast"):
-                return env["count"]
-            if (e[0] in ("local", "arg") and e[2] == "return_addr") or (e[0] == "field" and e[2] == "return_addr" and e[1][0] == "downcast"):
-                return 0x4000
-            if e[0] == "call" and str(e[1]).endswith("RunState::pc"):
-                return 0x4000 if env["at_ret"] else 0x3000
-            if e[0] in ("local", "arg") and e[2] == "instr":
-                return INSTRS[env["instr"]]
-            if e[0] == "local" and e[1] not in env.setdefault("_open", set()):
-                # some other named temporary (`let remaining = ..`): look through it
-                env["_open"].add(e[1])
-                try:
-                    full = pz.local_expr(e[1], 10)
-                    if full != e:
-                        return formula.evaluate(kit.resolve_promoteds(prog, full), {"subst": sub, "prog": prog})
-                except (formula.Unknown, formula.Overflow):
-                    return None
-                finally:
-                    env["_open"].discard(e[1])
-            return None
+    def run_arm(paths, env0, cfield="count"):
+        """outcomes of the arm under a concrete (count, at_ret, instr): every path whose evaluable conditions hold. The events of a
+        path are replayed in order, so a test that follows `*count -= 1` reads the decremented counter."""
         outs = set()
         for conds, effs, end in paths:
+            env = dict(env0)
+
+            def sub(e, env=env):
+                if (e[0] in ("local", "arg") and e[2] == cfield) or (e[0] == "field" and e[2] == cfield and e[1][0] == "downcast"):
+                    return env["count"]
+                if (e[0] in ("local", "arg") and e[2] == "return_addr") or (e[0] == "field" and e[2] == "return_addr" and e[1][0] == "downcast"):
+                    return 0x4000
+                if e[0] == "call" and str(e[1]).endswith("RunState::pc"):
+                    return 0x4000 if env["at_ret"] else 0x3000
+                if e[0] in ("local", "arg") and e[2] == "instr":
+                    return INSTRS[env["instr"]]
+                if e[0] == "local" and e[1] not in env.setdefault("_open", set()):
+                    # some other named temporary (`let remaining = ..`): look through it
+                    env["_open"].add(e[1])
+                    try:
+                        full = pz.local_expr(e[1], 10)
+                        if full != e:
+                            return formula.evaluate(kit.resolve_promoteds(prog, full), {"subst": sub, "prog": prog})
+                    except (formula.Unknown, formula.Overflow):
+                        return None
+                    finally:
+                        env["_open"].discard(e[1])
+                return None
             ok_path = True
-            for c, v in conds:
-                try:
-                    val = formula.evaluate(kit.resolve_promoteds(prog, c), {"subst": sub, "prog": prog})
-                except (formula.Unknown, formula.Overflow):
-                    continue                      # a condition on something else (output mode, statistics): either way
-                if isinstance(val, bool):
-                    val = 1 if val else 0
-                if isinstance(v, tuple):
-                    if val in v[1]:
+            st, stores = [], []
+            for ev in effs:
+                if ev[0] == "cond":
+                    c, v = ev[1], ev[2]
+                    try:
+                        val = formula.evaluate(kit.resolve_promoteds(prog, c), {"subst": sub, "prog": prog})
+                    except formula.Overflow:
+                        ok_path = False           # the checked operation this condition guards fails: not a path of the transition
+                        break
+                    except formula.Unknown:
+                        continue                      # a condition on something else (output mode, statistics): either way
+                    if isinstance(val, bool):
+                        val = 1 if val else 0
+                    if isinstance(v, tuple):
+                        if val in v[1]:
+                            ok_path = False
+                    elif val != v:
                         ok_path = False
-                elif val != v:
-                    ok_path = False
-                if not ok_path:
-                    break
+                    if not ok_path:
+                        break
+                elif ev[0] == "status":
+                    st.append(ev[1])
+                elif ev[0] == "store":
+                    try:
+                        nv = formula.evaluate(ev[2], {"subst": sub, "prog": prog})
+                        stores.append((ev[1], nv))
+                        if ev[1] == cfield and isinstance(nv, int):
+                            env["count"] = nv
+                    except (formula.Unknown, formula.Overflow):
+                        stores.append((ev[1], "?"))
             if not ok_path:
                 continue
-            st = tuple(e[1] for e in effs if e[0] == "status")
-            stores = []
-            for e in effs:
-                if e[0] == "store":
-                    try:
-                        stores.append((e[1], formula.evaluate(e[2], {"subst": sub, "prog": prog})))
-                    except (formula.Unknown, formula.Overflow):
-                        stores.append((e[1], "?"))
             if end[0] == "return":
                 ek = "Proceed" if end[1] is not None and "Proceed" in expr_str(end[1]) else "return " + (expr_str(end[1]) if end[1] else "?")
             elif end[0] in ("goto", "loop"):
                 ek = "redispatch"
             else:
                 ek = end[0]
-            outs.add((st, tuple(stores), ek))
+            outs.add((tuple(st), tuple(stores), ek))
         return outs
 
     def want(role, env):
@@ -325,6 +339,74 @@ def run(ctx):
         ctx.instance(1, {"state": vname, "role": role, "paths": len(paths)})
         bad = None
         ncell = 0
+        if role == "stepinto":
+            # representation-independent: whatever the counter stores (instructions left after / including the next one), `step into N`
+            # must answer Proceed exactly N times and go back to waiting on the N-th - replayed on the extracted transition for small N
+            # (and 65,535 in the thorough tier), for every instruction class and return-address state
+            vfields = [f_["name"] for v_ in prog.adt(STATUS)["variants"] if v_["name"] == vname for f_ in v_.get("fields", [])]
+            ctx.need(len(vfields) == 1 and len(init_exprs) == 1, "the one counter field of Status::%s and its initial value" % vname)
+            cfield = vfields[0]
+            init_e = init_exprs[0][0]
+            # one-step outcome for every counter value (instruction class and return-address state must not matter: checked on small values)
+            step = {}
+
+            def one(c, at_ret=0, instr="none"):
+                outs = run_arm(paths, {"count": c, "at_ret": at_ret, "instr": instr}, cfield)
+                if len(outs) != 1:
+                    return ("ambiguous", sorted(outs))
+                st_, stores_, ek_ = list(outs)[0]
+                nxt_ = [nv_ for nm_, nv_ in stores_ if nm_ == cfield]
+                if any(not isinstance(v_, int) for v_ in nxt_):
+                    return ("overflow", sorted(outs))
+                if ek_ != "Proceed" or st_ not in ((), ("WaitForAction",)):
+                    return ("other", sorted(outs))
+                return ("wait" if st_ else "go", nxt_[-1] if nxt_ else c)
+            for c in range(0x10000):
+                step[c] = one(c)
+            ncell += 0x10000
+            for c in (0, 1, 2, 3, 65535):
+                for at_ret in (0, 1):
+                    for instr in ("none", "ret", "halt"):
+                        ncell += 1
+                        if one(c, at_ret, instr) != step[c] and bad is None:
+                            bad = ({"counter": c, "at_ret": at_ret, "instr": instr}, [one(c, at_ret, instr)], "the same step as for any other instruction: %s" % (step[c],))
+            # rank: how many Proceeds follow from counter c until the debugger waits again (None: never / leaves the well-behaved set)
+            rank = {}
+            for c in range(0x10000):
+                chain = []
+                x = c
+                while x not in rank and x not in chain and step.get(x, ("other",))[0] == "go":
+                    chain.append(x)
+                    x = step[x][1]
+                if x in rank:
+                    base = rank[x]
+                elif step.get(x, ("other",))[0] == "wait":
+                    rank[x] = 1
+                    base = 1
+                else:
+                    base = None
+                    if x not in rank:
+                        rank[x] = None
+                for y in reversed(chain):
+                    base = None if base is None else base + 1
+                    rank[y] = base
+            for N in range(1, 0x10000):
+                if bad:
+                    break
+                try:
+                    c0 = formula.evaluate(init_e, {"subst": lambda e_: N if e_[0] in ("local", "arg") else None})
+                except (formula.Unknown, formula.Overflow) as exn:
+                    bad = ({"N": N}, ["initial counter: %s" % exn], "a value")
+                    break
+                if rank.get(c0) != N:
+                    bad = ({"N": N, "initial counter": c0}, ["lets %s instruction(s) through%s" % (rank.get(c0), "" if rank.get(c0) is not None else " (runs into %s)" % (step.get(c0),))], "N Proceeds, waiting on the N-th")
+            ctx.stepinto_ok = bad is None
+            ctx.oblig(bad is None, {"state": vname, "visits replayed": ncell, "initial counter": expr_str(init_e, 40)}, "N Proceeds, waiting again on the N-th")
+            if bad:
+                ctx.violation("transition|%s" % role, sp_file_line(pz.term(targets[idx_of[vname]]).get("sp")),
+                              "`step into N`: with %s the `%s` state does %s; N instructions must be let through and the debugger must wait again on the N-th (expected %s)"
+                              % (bad[0], vname, bad[1], bad[2]))
+            continue
         for count in (0, 1, 2, 65535):
             for at_ret in (0, 1):
                 for instr in ("none", "ret", "halt"):
@@ -372,7 +454,9 @@ def run(ctx):
                       "HALT could be executed while the debugger is attached" % len(halts))
     else:
         swb = halts[0][0]
-        ok = rl.must_pass(pt_, [exb_], [swb])
+        # within this cycle of the run loop (a `continue` that skips execute starts a new cycle, with a new question to the debugger)
+        heads_ = {h for h, (body, latches) in kit.loops(rl).items() if exb_ in body}
+        ok = exb_ not in rl.reachable(pt_, avoid={swb} | heads_)
         ctx.instance(1)
         ctx.oblig(ok, {"Proceed -> execute": "passes the HALT test"}, "must-pass")
         if not ok:
